@@ -79,6 +79,21 @@ _w("C12", 25, 600,
    "half of the runs execute every flow that writes records with storage wrappers on both sides (root rotation incl. promotion, node credential creation, authorize or token creation+use, fetch, response handling, 0-2 node credential rotations with previous keys retained on both sides) and scan every message handed to Store for every secret the harness has seen (raw and base58); the other half store one of the four record types with a tape-chosen combination of optional fields (nonce, previous key, state, bundles) and check round trip, load without / with another wrapper, and a sealed field transplanted from another record of the same type. Non-trivial: all; distinct by (flow sequence, back ends) and (record type, optional-field mask, transplanted field, back end).",
    ["wrappers are real go-kms-wrapping aead wrappers (honour associated data)",
     "'node-side registration nonce' is looked for in NodeCredentials records only (the server's own copy in NodeInformation is not covered by the statement)"])
+_w("C13", 20, 600,
+   "runs 0..89 enumerate completely: for each of 15 flows (authorize; fetch node-led / token / wrapper / re-wrapped; token creation; root rotation on empty storage, at promotion time, as no-op, with reinitialize; node rotation by key ID and by node ID; server-certificate generation; node-side NewNodeCredentials and HandleFetchNodeCredentialsResponse) x 3 back ends x storage wrapper on/off, a fault-free pilot counts the n storage operations of the call and then every position 0..n-1 x {generic error, injected not-found, cancelled context} is executed in a fresh world; later runs sample double faults. Non-trivial: every faulted execution; distinct by (flow, back end, wrapper, position(s), kind(s)).",
+   ["a cancelled-context fault cancels the context the harness handed to the library and fails that call; back ends that ignore contexts (file) keep working afterwards",
+    "a failed call may legitimately have added a record for its own new key (node rotation whose second half failed)",
+    "listener/dialer-level flows are covered by the wire engines, not here"],
+   level="fault_enumeration", min_runs=90, exhaustive_quick=True, grace_s=600)
+_w("C09", 40, 900,
+   "each run is one discrete-event history on the fake clock: lifetime 1min..10y, skews 0..lifetime/4 (or the defaults), server rotation intervals drawn in (0,R] with R<S (incl. exactly R), 1-3 nodes that enroll at a random instant and re-enroll (authorize+fetch or RotateNodeCredentials) at intervals in (0,N], N=(S-R)/2-|nbSkew|-2s (incl. exactly N); 30-200 events; probes 1ns before / at / after every event and at random instants in between. Non-trivial: every history; distinct by (lifetime, skews, R, nodes, events, back end).",
+   ["x509 validity has one-second resolution: configurations below one minute are not generated and the node bound carries a 2s allowance",
+    "histories whose node bound is not positive are discarded and counted, not judged",
+    "sampled real handshakes at probe instants are done by the wire engine of C07 (rotation histories), not here"])
+_w("C04", 30, 900,
+   "runs 0..47 cover every cell of flow {operator-authorized, activation-token, wrapper, re-wrapped via an intermediate} x back end {inmem, file, store-once} x server storage wrapper x node storage wrapper; later runs draw cells from the tape. Each run additionally draws application state / params (absent, empty, flat, nested), a second root rotation, a clock jump between authorization and fetch, 0-2 lost responses (honest retry with the same stored key) and one substitution of the response on the node side (another node's response, re-encrypted to another key, different nonce inside, swapped server public key). Non-trivial: all (the suite performs one token enrollment on store-once without wrappers); distinct by (cell, state kind, lost responses, substitution).",
+   ["a lost response is not retried in the token flow (tokens are single-use by design)",
+    "the authenticated handshake with the stored credentials is exercised by the wire engines (C02/C07/C16)"], min_runs=48, grace_s=300)
 
 HOOK_COMMITS = ["54f90f1 (H2: net/splitlistener.go scheduling points + net/verif_hook_{on,off}.go)",
                 "c914c74 (H1: protocol/dialer.go SimDial seam + protocol/verif_hook_{on,off}.go)"]
@@ -89,6 +104,9 @@ NOT_APPLICABLE["C20"] = ("pure function of its arguments (BreakIntoNextProtos/Co
                          "its failure modes are reached by the simulated workloads of C14 (malformed entries in a hostile ClientHello) and C07/C16 (honest payloads needing >99 chunks)")
 
 LEVEL_TEXT = {
+    "C09": "seeded discrete-event simulation of rotation/re-enrollment histories over simulated years with cadences up to and including the stated bounds; invariants (never reset, roots stay trusted until the successor is valid, every node holds a valid trusted chain, ClientConfigs agrees) at probe instants around every event.",
+    "C04": "seeded exploration of the full configuration product with lost-response retries and response substitution; every clause about response, certificates, server record and node storage is checked with independent crypto/x509/ecdh.",
+    "C13": "complete enumeration of single storage faults (every operation position x three error kinds) for 15 flows x 3 back ends x wrapper on/off, each in a fresh simulated world, plus sampled double faults; oracle: error without results, or success reflected in the inner back end; other nodes' records byte-identical.",
     "C10": "seeded exploration of rotation requests, lookup orders, corruptions, replays and rotation chains against a model recomputed from stored records with independent cryptography.",
     "C11": "seeded simulation of two parties exchanging encrypted messages over a delaying, reordering, corrupting channel across key rotations; oracle is an independent X25519/key-ID computation.",
     "C12": "seeded exploration of all writing flows with a byte-level scan of everything handed to storage, plus record-level round-trip / wrong-wrapper / misdirected-sealed-field checks for every optional-field combination.",
@@ -100,5 +118,6 @@ LEVEL_TEXT = {
     "C18": "seeded exploration of interleavings of ingress/accept/close/cancel on the real MultiplexingListener under a lock-aware deterministic scheduler; invariants (exactly-once delivery xor close, no panic, Close returns, accept-after-close) checked after every step and at quiescence. Sampling: small bags usually saturate their schedule space, exhaustiveness is not claimed.",
 }
 TECHNIQUE = {
+    "C13": "deterministic simulation with enumerated fault injection at the Storage seam (single faults complete, double faults sampled); durability/fail-closed oracle against the inner back end",
     "C18": "deterministic simulation: seeded lock-aware scheduler over hook-H2 points in a synctest bubble; invariants per step + bounded-liveness at quiescence; tape shrinking",
 }
